@@ -106,6 +106,24 @@ def one_history(ctx, r):
                 if tid in ids and ok and fine_summary and os.path.isfile(full) and not extra and not c.startswith(".."):
                     ctx.violation("C20 valid attach rejected", "a regular file inside the project (%r) with a valid summary was refused: %s" % (rel, rr["stderr"].strip()[:120]), {"trace": trace}); return
             # accumulation: newest first, nothing dropped/duplicated/reordered by anything
+            if r.p(12):
+                # a log merged from machines with skewed clocks: the recorded times of result events are not increasing in log order.
+                # Attach order is log order; timestamps are data.
+                lines = st.log_bytes().split(b"\n")
+                n_res = 0
+                for li, ln in enumerate(lines):
+                    if b'"type":"result"' in ln:
+                        ev = json.loads(ln)
+                        n_res += 1
+                        t = "2020-01-%02dT00:00:00Z" % max(1, 28 - n_res)
+                        ev["ts"] = t
+                        if isinstance(ev.get("data"), dict) and "ts" in ev["data"]:
+                            ev["data"]["ts"] = t
+                        lines[li] = json.dumps(ev, separators=(",", ":"), ensure_ascii=False).encode()
+                if n_res >= 2:
+                    open(st.log_path(), "wb").write(b"\n".join(lines))
+                    trace.append({"edit": "timestamps of the %d result events rewritten to decrease in log order (skewed clocks); then compact" % n_res})
+                    ex(["--json", "compact"])
             if r.p(25):
                 ex(r.pick([["--json", "compact"], ["--json", "set", r.pick(ids), "--title", "renamed"], ["--json", "prune", "--yes"], ["--json", "sequence", ids[0], ids[1]]]))
             g = st.graph()["graph"]
@@ -125,6 +143,12 @@ def one_history(ctx, r):
 
 
 def run(ctx):
+    # results through replay and compaction (random event lists: several results per task, equal and decreasing timestamps, tombstones)
+    rr_ = fndiff.run_stream(ctx.ev, ["fn-replay", str(ctx.seed + 2001), "1500" if ctx.quick else "20000"])
+    ctx.tie("T2-fn replay/compactEvents (results kept, in attach order)", cases=rr_["cases"], disagreements=len(rr_["diffs"]))
+    ctx.count(rr_["cases"])
+    for d in rr_["diffs"][:3]:
+        ctx.tie_broken("T2-fn replay/compactEvents", {"first_difference": fndiff.first_difference(d["go"], d["model"])})
     res = fndiff.run_stream(ctx.ev, ["fn-path", str(ctx.seed + 2000), "1500" if ctx.quick else "20000"])
     ctx.tie("T2-fn validateResultPath/Clean/Join", cases=res["cases"], disagreements=len(res["diffs"]))
     ctx.count(res["cases"])
